@@ -140,7 +140,8 @@ def r1(repo, res):
             continue
         sets = block_sets(f)
         if not sets:
-            res.err("C12.R1", f"no carried-variant set found in {ref}")
+            res.note(f"C12.R1: the carried-variant set of {ref} is not built as one block of set operations any more; "
+                     "its rows are decided by the folded writer (R5/R6) only")
             continue
         for name, stmts, consumer in sets:
             try:
@@ -166,7 +167,7 @@ def r1(repo, res):
                     n_sites += 1
                     res.ob("C12.R1", f, g.iter, got >= SPEC, expected="a superset of core|minor|added - lost",
                            found=describe(got), clause="every carried variant has a VCF record", key="vcf-table-keys")
-    res.floor("C12.R1", "carried-set sites", n_sites, 4)
+    res.floor("C12.R1", "carried-set sites", n_sites, 2)
     # exempt display-only site: listed
     g = repo.func("solutions::MinorSolution.get_mutation_coverages")
     res.analysed(g)
@@ -395,6 +396,9 @@ def r5(repo, res):
     sol = [Obj(major="1", minor="1.001", added=[], missing=[]), Obj(major="1", minor="1.002", added=[AD], missing=[]),
            Obj(major="3", minor="3.001", added=[], missing=[S2])]
     msol = Obj(solution=sol, get_major_diplotype=lambda: "*1 / *1 + *3")
+    # a second solution that repeats one minor allele: the first copy gained and lost variants, the second did not
+    rep = Obj(solution=[Obj(major="1", minor="1.002", added=[AD], missing=[S1]), Obj(major="1", minor="1.002", added=[], missing=[]),
+                        Obj(major="3", minor="3.001", added=[], missing=[])], get_major_diplotype=lambda: "*1 + *1 / *3")
     support = {F1: 11, S1: 12, S2: 0, AD: 4}
     rows = []
 
@@ -428,6 +432,20 @@ def r5(repo, res):
            found=str(got) if not ok else f"{len(cells)} rows agree",
            clause="each with its position, change, read support, effect and dbSNP id ...; copies without variants get one empty row",
            key="decomposition-rows")
+    rows.clear()
+    try:
+        k, v = Evaluator({"sample": "S", "gene": gene, "sol_id": 8, "minor": rep, "f": "FILE"}, funcs={"print": pr}, hook=hook).run(
+            [s_ for s_ in f.body if not (isinstance(s_, ast.Expr) and isinstance(s_.value, ast.Constant))])
+    except (Unfoldable, Raised) as e:
+        res.err("C12.R5", f"write_decomposition outside the folding language: {e}")
+        return
+    got2 = {}
+    for c in [r.split("\t") for r in rows]:
+        got2.setdefault(c[5], []).append((c[7], c[8]))
+    want2 = {"0": [("450", "insA")], "1": [("150", "T>A")], "2": [("250", "C>T"), ("350", "G>A")]}
+    res.ob("C12.R5", f, f, k != "raise" and got2 == want2 and set(gene.alleles["1"].minors["1.002"].neutral_muts) == {S1},
+           expected="copies of the same minor allele are written independently: gains and losses of one copy do not show on the next",
+           found=str(got2), clause="per allele copy, exactly the variants that copy is reported to carry", key="decomposition-repeated-minor")
 
 
 def r6(repo, res):
@@ -540,6 +558,22 @@ MUTANTS = [
          old='"MA": ",".join(\n                        f"*{minor.solution[i].major}"', new='"MA": ",".join(\n                        f"*{minor.solution[i].minor}"'),
     dict(name="R6 ID column holds the position-based name", module="diplotype", expect="C12.R6",
          old="                id=gene.get_rsid(m, default=False),", new="                id=gene.get_rsid(m),"),
+    dict(name="R5 definition cached per minor allele and updated in place (seeded C12_1 shape)", module="diplotype", expect="C12.R5",
+         old="""    for copy, a in enumerate(minor.solution):
+        assert a.minor
+        mutations = set(gene.alleles[a.major].func_muts) | set(
+            gene.alleles[a.major].minors[a.minor].neutral_muts
+        )
+        mutations |= set(a.added)""",
+         new="""    definitions = {}
+    for copy, a in enumerate(minor.solution):
+        assert a.minor
+        if a.minor not in definitions:
+            definitions[a.minor] = set(gene.alleles[a.major].func_muts) | set(
+                gene.alleles[a.major].minors[a.minor].neutral_muts
+            )
+        mutations = definitions[a.minor]
+        mutations |= set(a.added)"""),
     dict(name="R5 read support of the wrong variant", module="diplotype", expect="C12.R5",
          old="                        coverage[m],\n                        fn if fn else \"none\",", new="                        coverage[sorted(mutations)[0]],\n                        fn if fn else \"none\","),
     dict(name="R5 no empty row for a copy without variants", module="diplotype", expect="C12.R5",
